@@ -1,6 +1,7 @@
 import FrappyProofs.Lemmas.CompatComplete
 import FrappyProofs.Lemmas.CompatLawsRat
 import FrappyProofs.Lemmas.CopyHeap
+import FrappyProofs.Lemmas.Datainfo
 import FrappyModel.Generated.C03
 /-
 C03 — property theorems (nothing but property theorems, table facts and non-vacuity examples).
@@ -10,9 +11,41 @@ binary64), every datatype tree of any depth.
 -/
 set_option linter.unusedSectionVars false
 namespace Frappy.Props.C03
-open Frappy.Datatypes Frappy.Spec.C01 Frappy.Spec.C03 Frappy.Lemmas.C03
+open Frappy.Datatypes Frappy.Spec.C01 Frappy.Spec.C03 Frappy.Lemmas.C03 Frappy.Lemmas.C03Datainfo
 
 variable {F : Type} [FloatOps F] [LawfulFloatOps F] [CompatLaws F]
+
+/-! ## rebuilding from the datainfo, copying -/
+
+/-- the full statement: exporting the datainfo of an exportable tree and rebuilding it yields a type with
+the same datainfo again that validates and imports exactly like the original -/
+def rebuild_equiv_statement (F : Type) [FloatOps F] : Prop :=
+  ∀ (D : Consts F), D.OK → ∀ dt : DInfo F, dt.WF D → dt.Exportable →
+    ∃ j dt', exportDatatype D dt = .ok j ∧ getDatatype D j = .ok dt' ∧ exportDatatype D dt' = .ok j ∧
+      (∀ v prev, validate dt'.erase v prev = validate dt.erase v prev) ∧
+      (∀ w, importValue dt'.erase w = importValue dt.erase w)
+
+/-- proved part: the rebuilt tree is the original one up to the enum name (not exported) and the `client`
+mark, hence all three conjuncts.  Missing for the full statement: a struct whose `optional` list names all
+members in an order other than the member order (the datainfo leaves `optional` out, the rebuild lists the
+members in member order — the same set, but not the same tree in the model: `OptionalInOrder`); and the
+carrier facts `ConstsOK2` (`±sys.float_info.max` are not `-0.0`), which no law class states. -/
+theorem rebuild_equiv_partial (D : Consts F) (hD : D.OK) (hC : ConstsOK2 F) (dt : DInfo F) (hwf : dt.WF D)
+    (hex : dt.Exportable) (hord : dt.OptionalInOrder) :
+    ∃ j dt', exportDatatype D dt = .ok j ∧ getDatatype D j = .ok dt' ∧ exportDatatype D dt' = .ok j ∧
+      (∀ v prev, validate dt'.erase v prev = validate dt.erase v prev) ∧
+      (∀ w, importValue dt'.erase w = importValue dt.erase w) := by
+  obtain ⟨j, h1, h2⟩ := rebuild_core D hD hC dt hwf hex hord
+  exact ⟨j, dt.asClient, h1, h2, by rw [export_asClient, h1], validate_asClient dt, import_asClient dt⟩
+
+/-- `copy()` of an exportable tree is the tree itself (same datainfo, same `validate`, same `import_value`,
+same `__call__`, the enum name and the client mark kept) — sharing is the subject of `copyH_fresh` -/
+theorem copy_equiv (D : Consts F) (hD : D.OK) (hC : ConstsOK2 F) (dt : DInfo F) (hwf : dt.WF D)
+    (hex : dt.Exportable) :
+    ∃ dt', copy D dt = .ok dt' ∧ exportDatatype D dt' = exportDatatype D dt ∧
+      (∀ v prev, validate dt'.erase v prev = validate dt.erase v prev) ∧
+      (∀ w, importValue dt'.erase w = importValue dt.erase w) ∧ (∀ v, call dt'.erase v = call dt.erase v) :=
+  ⟨dt, copy_core D hD hC dt hwf hex, rfl, fun _ _ => rfl, fun _ => rfl, fun _ => rfl⟩
 
 /-! ## compatibility verdicts -/
 
